@@ -361,6 +361,45 @@ func c14BodyE(e *c14Env, stamp int, l *obsLog) {
 	l.add("E same-error-text-every-time ok=%v", same)
 }
 
+// c14Direct is a direct writer (no-copy path) whose WriteDirect is a scheduling point: the library calls out of its
+// encoding loop here, so another goroutine can run in the middle of an encode.
+type c14Direct struct {
+	e    *c14Env
+	buf  []byte
+	recs []directRec
+}
+
+func (w *c14Direct) WriteDirect(b []byte, remainCap int) error {
+	w.e.s.Point("direct.Write")
+	w.recs = append(w.recs, directRec{b: b, remainCap: remainCap})
+	return nil
+}
+
+// BE: encode a Base / BaseResp with a map of large values through the no-copy path (twice), splice and compare with
+// the reference encoding (maps compared as sets of entries), then decode it again.
+func c14BodyBE(e *c14Env, stamp int, l *obsLog) {
+	for round := 0; round < 2; round++ {
+		extra := map[string]string{}
+		for i := 0; i < 3; i++ {
+			extra[string(stamped(stamp, 6+i, round))] = string(stamped(stamp, 4200+i*50, round+i))
+		}
+		x := &base.Base{LogID: string(stamped(stamp, 12, round)), Caller: "c", Addr: "a", Extra: extra}
+		n := x.BLength()
+		w := &c14Direct{e: e}
+		buf := make([]byte, n)
+		w.buf = buf
+		m := x.FastWriteNocopy(buf, w)
+		got, why := splice(buf[:m], len(buf), w.recs)
+		var y base.Base
+		k, err := y.FastRead(got)
+		ok := why == "" && err == nil && k == len(got) && y.LogID == x.LogID && len(y.Extra) == len(extra)
+		for kk, vv := range extra {
+			ok = ok && y.Extra[kk] == vv
+		}
+		l.add("BE%d encode %d+%d direct pieces, decoded ok=%v (%s %v)", round, m, len(w.recs), ok, why, err)
+	}
+}
+
 type c14Thread struct {
 	kind string
 	body func(e *c14Env, stamp int, l *obsLog)
@@ -368,10 +407,10 @@ type c14Thread struct {
 
 var c14Bodies = map[string]func(e *c14Env, stamp int, l *obsLog){
 	"P": c14BodyP, "S1e": c14BodyS1e, "S3big": c14BodyS3big, "BW": c14BodyBW, "E": c14BodyE, "BR": c14BodyBR,
-	"R": c14BodyR, "W": c14BodyW, "S1": c14BodyS1, "S2": c14BodyS2, "S3": c14BodyS3, "H": c14BodyH, "B": c14BodyB,
+	"R": c14BodyR, "W": c14BodyW, "S1": c14BodyS1, "S2": c14BodyS2, "S3": c14BodyS3, "H": c14BodyH, "B": c14BodyB, "BE": c14BodyBE,
 }
 
-var c14Scenarios = [][]string{{"BR", "W"}, {"BR", "R"}, {"BW", "W"}, {"BW", "BW"}, {"E", "E"}, {"E", "R"}, {"H", "R"}, {"P", "P"}, {"P", "W"}, {"S1e", "S1"}, {"S1e", "S3"}, {"S3big", "S3big"}, {"S3big", "W"}, {"R", "R"}, {"W", "W"}, {"S1", "S1"}, {"S3", "S3"}, {"S2", "S2"}, {"R", "S1"}, {"W", "H"}, {"H", "H"}, {"B", "B", "B"}, {"R", "B"}, {"S3", "S3", "S3"}, {"R", "W", "S3"}, {"S1", "S3", "W"}}
+var c14Scenarios = [][]string{{"BE", "BE"}, {"BE", "W"}, {"BR", "W"}, {"BR", "R"}, {"BW", "W"}, {"BW", "BW"}, {"E", "E"}, {"E", "R"}, {"H", "R"}, {"P", "P"}, {"P", "W"}, {"S1e", "S1"}, {"S1e", "S3"}, {"S3big", "S3big"}, {"S3big", "W"}, {"R", "R"}, {"W", "W"}, {"S1", "S1"}, {"S3", "S3"}, {"S2", "S2"}, {"R", "S1"}, {"W", "H"}, {"H", "H"}, {"B", "B", "B"}, {"R", "B"}, {"S3", "S3", "S3"}, {"R", "W", "S3"}, {"S1", "S3", "W"}}
 
 type c14Case struct {
 	Scenario []string `json:"scenario"`
